@@ -32,7 +32,7 @@ KIND_EXC = {"multi": "FileProvidedByMultipleTargetsError", "unresolved": "Unreso
 RECURSION_FRAMES = {"visitor", "_schedule", "_cached_schedule", "_visit", "dfs_inner", "check_for_circular_dependencies", "inner", "wrapper"}
 
 
-QUICK_BUDGET = {"cases": 4000, "deadline_s": 170, "case_timeout_s": 900, "floors": {"lib_decisions": 1312, "cli_commands": 300, "size_runs": 12, "relative_wd_cases": 400}}
+QUICK_BUDGET = {"cases": 4000, "deadline_s": 170, "case_timeout_s": 900, "floors": {"lib_decisions": 1312, "cli_commands": 300, "size_runs": 12, "relative_wd_cases": 400, "epoch_sources": 250}}
 THOROUGH_FACTOR = 10  # thorough = the same workload with 10x the cases (floors scale along)
 
 
@@ -145,6 +145,11 @@ def run_case(case):
         deps, producers, unresolved = model.dependency_relation(mts)
         for s in case["dag"]["sources"]:
             proj.set_file(s, 0)
+        # one source may be dated the Unix epoch (mtime exactly 0, e.g. unpacked from an archive without timestamps):
+        # it exists all the same
+        if case["shape_seed"] % 4 == 0 and case["dag"]["sources"]:
+            os.utime(proj.path(case["dag"]["sources"][case["shape_seed"] % len(case["dag"]["sources"])]), ns=(0, 0))
+            res.mon("epoch_sources")
         # a missing source may be "present" as a dangling symbolic link: still missing
         for i, mname in enumerate(case["missing"]):
             if (case["shape_seed"] + i) % 3 == 0:
